@@ -255,6 +255,8 @@ pub enum Sv {
     Exec(Data, Option<Data>),
     /// internal_error_execution_for_event(send_id, invoke_id): error.execution placed on the internal queue
     ErrorExecution(Option<String>, Option<String>),
+    /// log(message): the <log> element's output
+    Log(Seq<char>),
     /// send(processor type, target, event) through an event I/O processor, with its answer
     Send(Seq<char>, Data, Event, bool),
 }
@@ -276,7 +278,7 @@ pub open spec fn opt_arc_val(r: Option<DataArc>) -> Option<Data> {
 // TRUSTED stand-in: the data model and platform services as <send>/<cancel> see them; every call appends one entry
 // to the ghost log
 pub trait Datamodel {
-    spec fn log(&self) -> Seq<Sv>;
+    spec fn trace(&self) -> Seq<Sv>;
 
     spec fn gview(&self) -> GlobalData;
 
@@ -285,55 +287,60 @@ pub trait Datamodel {
         ensures
             *r == old(self).gview(),
             final(self).gview() == *final(r),
-            final(self).log() == old(self).log();
+            final(self).trace() == old(self).trace();
 
     fn get_expression_alternative_value(&mut self, value: &Data, value_expression: &Data) -> (r: Result<DataArc, String>)
         ensures
-            final(self).log() == old(self).log().push(Sv::Alt(*value, *value_expression, opt_val(r))),
+            final(self).trace() == old(self).trace().push(Sv::Alt(*value, *value_expression, opt_val(r))),
             final(self).gview() == old(self).gview();
 
     fn set(&mut self, name: &str, data: Data, allow_undefined: bool)
         ensures
-            final(self).log() == old(self).log().push(Sv::Set(name@, data, allow_undefined)),
+            final(self).trace() == old(self).trace().push(Sv::Set(name@, data, allow_undefined)),
             final(self).gview() == old(self).gview();
 
     fn evaluate_content(&mut self, content: &Option<CommonContent>) -> (r: Option<DataArc>)
         ensures
-            final(self).log() == old(self).log().push(Sv::Content(opt_arc_val(r))),
+            final(self).trace() == old(self).trace().push(Sv::Content(opt_arc_val(r))),
             final(self).gview() == old(self).gview();
 
     fn evaluate_params(&mut self, params: &Option<Vec<Parameter>>, values: &mut Vec<ParamPair>)
         ensures
             old(values)@.is_prefix_of(final(values)@),
-            final(self).log() == old(self).log().push(Sv::Params(final(values)@.subrange(old(values)@.len() as int, final(values)@.len() as int))),
+            final(self).trace() == old(self).trace().push(Sv::Params(final(values)@.subrange(old(values)@.len() as int, final(values)@.len() as int))),
             final(self).gview() == old(self).gview();
 
     fn get_by_location(&mut self, location: &str) -> (r: Result<DataArc, String>)
         ensures
-            final(self).log() == old(self).log().push(Sv::Location(location@, opt_val(r))),
+            final(self).trace() == old(self).trace().push(Sv::Location(location@, opt_val(r))),
             final(self).gview() == old(self).gview();
 
     fn execute(&mut self, script: &Data) -> (r: Result<DataArc, String>)
         ensures
-            final(self).log() == old(self).log().push(Sv::Exec(*script, opt_val(r))),
+            final(self).trace() == old(self).trace().push(Sv::Exec(*script, opt_val(r))),
             final(self).gview() == old(self).gview();
 
     fn internal_error_execution_for_event(&mut self, send_id: &Option<String>, invoke_id: &Option<InvokeId>)
         ensures
-            final(self).log() == old(self).log().push(Sv::ErrorExecution(*send_id, *invoke_id)),
+            final(self).trace() == old(self).trace().push(Sv::ErrorExecution(*send_id, *invoke_id)),
             final(self).gview() == old(self).gview();
 
     fn get_io_processor(&mut self, name: &str) -> (r: Option<IopHandle>)
         ensures
-            final(self).log() == old(self).log(),
+            final(self).trace() == old(self).trace(),
             final(self).gview() == old(self).gview(),
             r.is_some() ==> r.unwrap().type_name() == name@;
 
     fn global_s(&self) -> (r: &GlobalDataArc);
 
+    fn log(&mut self, msg: &str)
+        ensures
+            final(self).trace() == old(self).trace().push(Sv::Log(msg@)),
+            final(self).gview() == old(self).gview();
+
     fn send(&mut self, ioc_processor: &str, target: &Data, event: Event) -> (r: bool)
         ensures
-            final(self).log() == old(self).log().push(Sv::Send(ioc_processor@, *target, event, r)),
+            final(self).trace() == old(self).trace().push(Sv::Send(ioc_processor@, *target, event, r)),
             final(self).gview() == old(self).gview();
 }
 
